@@ -38,7 +38,7 @@ SERIES_THEOREMS = [
     "Atomica.C06.previous_prefix",
     "Atomica.C06.previous_prefix_needs_point",
 ]
-PIPE_LEAN_MODS = ["AtomicaProofs.Properties.C06Params"]
+PIPE_LEAN_MODS = ["AtomicaProofs.Properties.C06Params", "AtomicaProofs.Properties.C13Closed"]
 PIPE_THEOREMS = [
     "Atomica.C06.precedence_program",
     "Atomica.C06.precedence_function",
@@ -55,6 +55,13 @@ PIPE_THEOREMS = [
     "Atomica.C06.current_eq_spec",
     "Atomica.C06.current_precompute_skip_nan",
     "Atomica.C06.current_ne_spec",
+    # closed loop with programs: untargeted / inactive parameters follow the program-free rule on the same-index values
+    "Atomica.C13.closedprog_untargeted_rule",
+    "Atomica.C13.closedprog_inactive_rule",
+    "Atomica.C13.closedprog_untargeted_unchanged_rule",
+    "Atomica.C13.closedprog_no_covouts",
+    "Atomica.C13.parVal_is_evalOne",
+    "Atomica.C13.evalParsP_clipped",
 ]
 LEAN_MODS = list(SERIES_LEAN_MODS) + PIPE_LEAN_MODS
 THEOREMS = list(SERIES_THEOREMS) + PIPE_THEOREMS
